@@ -26,6 +26,17 @@ fn gen_lists(r: &mut Rng) -> (Vec<String>, Vec<String>) {
             net.push("||tracker.example.net^".into());
         }
     }
+    if r.pct(35) {
+        // equal-priority redirects sharing a bucket, one of them stored in several buckets: which one is
+        // reported depends on the order inside the bucket, which a reload must keep
+        let d = *r.pick(&[&"shop.test", &"cdn.test"]);
+        let ty = *r.pick(&[&"script", &"image"]);
+        net.push(format!("*${},redirect=a.js,domain={}|other.net", ty, d));
+        net.push(format!("*${},redirect=b.gif,domain={}", ty, d));
+        if r.pct(50) {
+            net.push(format!("*${},redirect-rule=alias-a,domain={}|sub.{}", ty, d, d));
+        }
+    }
     net.retain(|l| parse_net(l, true).map(|f| !f.mask.contains(adblock::filters::network::NetworkFilterMask::IS_COMPLETE_REGEX)).unwrap_or(false));
     let scripts = cosm::script_pool();
     let mut cos: Vec<String> = (0..r.below(8)).map(|_| cosm::gen_rule(r, &scripts)).collect();
@@ -107,10 +118,21 @@ pub fn run_c08(seed: u64, n: usize, out: &mut Out) {
                 cur.sort();
                 out.case(&format!("htags\tuse\t{}", hex_list(&tags)), &format!("+{}", cur.join(",")), json!({"use_tags": tags}), false);
             }
-            for _ in 0..3 {
-                let (mut u, s, t) = gen::cluster_url(&mut r, &net);
+            // a query aimed at the equal-priority redirect twins, when the list has them
+            let aimed: Option<(String, String, String)> = net.iter().find(|l| l.contains(",redirect=a.js,domain=")).map(|l| {
+                let ty = l[2..].split(',').next().unwrap().to_string();
+                let d = l.split("domain=").nth(1).unwrap().split('|').next().unwrap().to_string();
+                ("https://cdn.test/x1".to_string(), format!("https://{}/", d), ty)
+            });
+            for k in 0..3 {
+                let (mut u, mut s, mut t) = gen::cluster_url(&mut r, &net);
                 if r.pct(30) {
                     u = r.pick(&["https://tracker.example.net/pixel.gif", "https://cdn.test/adframe/x"]).to_string();
+                }
+                if let (0, Some((au, asrc, aty))) = (k, &aimed) {
+                    u = au.clone();
+                    s = asrc.clone();
+                    t = aty.clone();
                 }
                 if !u.is_ascii() {
                     continue;
@@ -233,6 +255,38 @@ pub fn run_c09(seed: u64, n: usize, out: &mut Out) {
             }
         } else {
             out.fail("deserialize-of-own-serialization-failed", None, desc.clone());
+        }
+        // several lists with different permissions in one engine (the same rule may come from two of them)
+        if r.pct(40) && !cos.is_empty() {
+            let build = |perms: &[u8]| -> Option<Vec<u8>> {
+                let mut fs = FilterSet::new(debug);
+                fs.add_filters(&net, ParseOptions::default());
+                for p in perms {
+                    fs.add_filters(&cos, ParseOptions { permissions: PermissionMask::from_bits(*p), ..Default::default() });
+                }
+                Engine::from_filter_set(fs, optimize).serialize_raw().ok()
+            };
+            let perms: Vec<u8> = match r.below(3) { 0 => vec![0, 1], 1 => vec![1, 2, 0], _ => vec![3, 3] };
+            let mdesc = json!({"network": net, "cosmetic_lists": cos, "permissions": perms, "optimize": optimize, "debug": debug});
+            match (build(&perms), build(&perms)) {
+                (Some(x), Some(y)) => {
+                    if x != y {
+                        out.fail("two-builds-in-one-process-serialize-differently", None, mdesc.clone());
+                    }
+                    let mut e3 = Engine::new(true);
+                    if e3.deserialize(&x).is_ok() {
+                        match e3.serialize_raw() {
+                            Ok(b3) if b3 == x => {}
+                            Ok(_) => out.fail("reserialization-after-reload-differs", None, mdesc.clone()),
+                            Err(_) => out.fail("reserialize-failed", None, mdesc.clone()),
+                        }
+                    } else {
+                        out.fail("deserialize-of-own-serialization-failed", None, mdesc.clone());
+                    }
+                    out.bump("multi_list_engines");
+                }
+                _ => out.fail("serialize-failed", None, mdesc.clone()),
+            }
         }
         out.oracle_case(&format!("{}", desc), &json!({"rules": all.len(), "bytes": bytes.len(), "optimize": optimize}), bytes.len() > 200);
         out.bump("lists");
@@ -362,7 +416,10 @@ pub fn c10_child(seed: u64, n: usize, dir: &str, tier: &str) {
             variants.push((format!("bit flip {}", i), v));
         }
         // substitutions at structural offsets: every msgpack length / type marker
-        let markers: [u8; 12] = [0xdb, 0xda, 0xd9, 0xc6, 0xc5, 0xc4, 0xdd, 0xdc, 0xdf, 0xde, 0xc1, 0x9f];
+        // length / type markers, and the smallest well-formed values of every kind (nil, booleans, the empty
+        // array / map / string, a one-element array, zero): data that still decodes but breaks an invariant the
+        // parser guarantees (sorted non-empty hash lists, `/…/` around complete regexes, …)
+        let markers: [u8; 21] = [0xdb, 0xda, 0xd9, 0xc6, 0xc5, 0xc4, 0xdd, 0xdc, 0xdf, 0xde, 0xc1, 0x9f, 0x90, 0x80, 0xa0, 0xc0, 0xc2, 0xc3, 0x00, 0x91, 0xa1];
         for (i, b) in good.iter().enumerate() {
             let structural = (0x90..=0x9f).contains(b) || (0x80..=0x8f).contains(b) || (0xa0..=0xbf).contains(b) || *b >= 0xc0 && *b <= 0xdf;
             if structural && (tier != "quick" || i % 3 == (seed as usize) % 3) {
